@@ -13,7 +13,8 @@ cp /verif/sim/target-dbg/release/vsim $dir/vsim-dbg
 mkdir -p $dir/dbg; cp /verif/KNOWN_FINDINGS.jsonl $dir/dbg/
 DBG_PROPS=" C05 C06 C07 C08 C09 C11 C12 C13 C16 "
 bad=0; total=0
-for ((sd=first; sd<first+count; sd++)); do
+stride=${SWEEP_STRIDE:-100000}
+for ((k=0; k<count; k++)); do sd=$((first + k*stride))
   for p in C01 C02 C03 C04 C05 C06 C07 C08 C09 C10 C11 C12 C13 C14 C15 C16 C17; do
     out=$(VERIF_SEED=$sd VERIF_DIR=$dir $dir/vsim check --property $p --tier $tier --jobs ${VERIF_JOBS:-16} 2>&1); rc=$?
     total=$((total+1))
@@ -25,5 +26,5 @@ for ((sd=first; sd<first+count; sd++)); do
     fi
   done
 done
-echo "sweep: $total check runs, $bad not clean (seeds $first..$((first+count-1)), tier $tier)"
+echo "sweep: $total check runs, $bad not clean (batch seeds $first + k*$stride, k < $count; tier $tier)"
 [ $bad -eq 0 ]
